@@ -1,4 +1,5 @@
-from math import copysign, isnan
+import struct
+from math import copysign, inf, isinf, isnan
 from typing import cast
 
 from xdsl.dialects import arith, builtin
@@ -10,6 +11,7 @@ from xdsl.interpreter import (
     impl,
     register_impls,
 )
+from xdsl.ir import Attribute
 from xdsl.utils.comparisons import to_signed
 from xdsl.utils.exceptions import InterpretationError
 from xdsl.utils.hints import isa
@@ -38,6 +40,24 @@ def _truncate(value: int, to_bitwidth: int) -> int:
     if truncated & (1 << (to_bitwidth - 1)):
         return truncated - (1 << to_bitwidth)
     return truncated
+
+
+def _round_float(value: float, typ: Attribute) -> float:
+    """
+    Rounds the result of a Python (binary64) operation to the precision of `typ`.
+    """
+    if isinstance(typ, builtin.Float32Type):
+        fmt = "<f"
+    elif isinstance(typ, builtin.Float16Type):
+        fmt = "<e"
+    else:
+        return value
+    if isnan(value) or isinf(value):
+        return value
+    try:
+        return struct.unpack(fmt, struct.pack(fmt, value))[0]
+    except OverflowError:
+        return copysign(inf, value)
 
 
 @register_impls
@@ -97,15 +117,15 @@ class ArithFunctions(InterpreterFunctions):
 
     @impl(arith.SubfOp)
     def run_subf(self, interpreter: Interpreter, op: arith.SubfOp, args: PythonValues):
-        return (args[0] - args[1],)
+        return (_round_float(args[0] - args[1], op.result.type),)
 
     @impl(arith.AddfOp)
     def run_addf(self, interpreter: Interpreter, op: arith.AddfOp, args: PythonValues):
-        return (args[0] + args[1],)
+        return (_round_float(args[0] + args[1], op.result.type),)
 
     @impl(arith.MulfOp)
     def run_mulf(self, interpreter: Interpreter, op: arith.MulfOp, args: PythonValues):
-        return (args[0] * args[1],)
+        return (_round_float(args[0] * args[1], op.result.type),)
 
     @impl(arith.MinimumfOp)
     def run_minimumf(
